@@ -352,6 +352,8 @@ func (m *interp) exec(s *stmt, env *menv, pending *[]mval) ctl {
 		}
 		m.feat["error"] = true
 		m.raise(v)
+	case sStorm:
+		m.feat["error-storm"] = true
 	case sRtErr:
 		m.feat["rterr"] = true
 		m.raise(m.lineErr(s.line, "RTERR"))
